@@ -138,7 +138,49 @@ pub fn resaved_case(r: &mut Rng, d: &RDoc, xref_stream: bool) -> Result<Case, St
         let style = if xref_stream { crate::refimpl::refwriter::XrefStyle::Stream } else { crate::refimpl::refwriter::XrefStyle::Table };
         crate::props::c02::write_history(r.next_u64(), &dis, &h, style, r.bool()).0.bytes
     };
+    // one source in three states a Size that is too small (tolerant readers accept that): what is saved afterwards
+    // still has to list every object and state a Size above all of them
+    if r.chance(1, 3) {
+        if let Some(patched) = understate_size(&src, r) {
+            if Document::load_mem(&patched).is_ok() {
+                let xs_out = r.bool();
+                return resave(&patched, xs_out).map(|mut c| {
+                    c.kind = if xs_out { "resaved-size-understated/xref-stream" } else { "resaved-size-understated/xref-table" };
+                    c
+                });
+            }
+        }
+    }
     resave(&src, r.bool())
+}
+
+/// the last `/Size n` of the file rewritten, digit for digit, to a smaller zero-padded number
+fn understate_size(src: &[u8], r: &mut Rng) -> Option<Vec<u8>> {
+    let at = src.windows(5).rposition(|w| w == b"/Size")?;
+    let mut i = at + 5;
+    while i < src.len() && b" \t\r\n".contains(&src[i]) {
+        i += 1;
+    }
+    let start = i;
+    while i < src.len() && src[i].is_ascii_digit() {
+        i += 1;
+    }
+    if i == start || i - start > 9 {
+        return None;
+    }
+    let n: u64 = std::str::from_utf8(&src[start..i]).ok()?.parse().ok()?;
+    if n < 3 {
+        return None;
+    }
+    let smaller = match r.below(3) {
+        0 => n - 1,
+        1 => n / 2,
+        _ => 1 + r.below(n - 1),
+    };
+    let mut out = src.to_vec();
+    let text = format!("{:0width$}", smaller, width = i - start);
+    out[start..i].copy_from_slice(text.as_bytes());
+    Some(out)
 }
 
 pub fn resave(src: &[u8], xref_stream_out: bool) -> Result<Case, String> {
@@ -219,7 +261,7 @@ pub fn run(cfg: &RunCfg) -> (PropMeta, ShardOut, Map<String, Value>) {
     });
     let meta = PropMeta {
         level: "exploration",
-        rule: "C01-style random documents saved by Document::save_to (xref table / xref stream; one case in six after Document::compress has deflated added redundant streams) and by IncrementalDocument::save_to after 1..3 rounds of random replace/add edits; one case in twelve loads a file with incremental updates (written by the library or by the reference writer) and saves it again in one piece; every produced file is parsed by the independent strict reader (header + binary comment, startxref/Prev chain, 20-byte entries, W/Index/Length consistency, exact object-header offsets, Length == bytes up to endstream, Size > every number, every byte accounted, every object named by a section) and the recovered document is compared with the saved one. distinct = distinct file bytes.".into(),
+        rule: "C01-style random documents saved by Document::save_to (xref table / xref stream; one case in six after Document::compress has deflated added redundant streams) and by IncrementalDocument::save_to after 1..3 rounds of random replace/add edits; one case in twelve loads a file with incremental updates (written by the library or by the reference writer) and saves it again in one piece (a third of these sources understate Size); every produced file is parsed by the independent strict reader (header + binary comment, startxref/Prev chain, 20-byte entries, W/Index/Length consistency, exact object-header offsets, Length == bytes up to endstream, Size > every number, every byte accounted, every object named by a section) and the recovered document is compared with the saved one. distinct = distinct file bytes.".into(),
         assumptions: vec![
             "the strict reader demands only what the property lists (e.g. it does not require an xref stream to list object 0, nor a single subsection in a never-updated file)".into(),
             "for incremental files version/binary mark are those of the first header".into(),
